@@ -435,7 +435,9 @@ pub fn run_generated<P: Prop>(
     seed: u64,
     active_kf: &BTreeSet<String>,
 ) -> (Stats, Option<FailInfo<P::Case>>) {
-    let total = P::cases(tier).max(WORKERS as u32);
+    // VERIF_CASES overrides the tier's case count (for experiments with the machinery itself, e.g. to let
+    // engine E4 be the one that finds a seeded change; never set by the registered commands)
+    let total = std::env::var("VERIF_CASES").ok().and_then(|s| s.parse::<u32>().ok()).unwrap_or_else(|| P::cases(tier)).max(WORKERS as u32);
     let per_worker = (total + WORKERS as u32 - 1) / WORKERS as u32;
     let results: Arc<Mutex<Vec<(usize, Stats, Option<(P::Case, String)>)>>> =
         Arc::new(Mutex::new(vec![]));
